@@ -70,6 +70,17 @@ def alone_projection(ctx, st, s, probs):
             j = next((j for j in range(min(len(alone), len(inter))) if alone[j] != inter[j]), min(len(alone), len(inter)))
             probs.append(('C04', 'projection', 'connection %s: interleaved shows %r, alone shows %r' % (
                 name, inter[j:j + 1], alone[j:j + 1]), mine[j][0] if j < len(mine) else None))
+        # selecting the connection by its name shows that connection - whatever titles or app ids other connections gave themselves
+        n0 = len(s.events)
+        s.command('connection ' + (name if ci % 2 else name.lower()))
+        s.command('list')
+        listed = [outline.parse_line(outline.strip_sgr(p)) for k, p in s.events[n0:] if k == 'out']
+        got = [re.sub(r' after -?\d+\.\d{4}s', ' after Ns', it['text'].split(': ', 1)[1]) for it in listed if it['kind'] == 'msg']
+        wrong = [it['conn'] for it in listed if it['kind'] == 'msg' and it['conn'] != name]
+        s.command('connection all')
+        if wrong or got != inter:
+            probs.append(('C04', 'selection-by-name', '`connection %s` then `list`: %d lines listed (%d of other connections, e.g. %r), connection %s has %d' % (
+                name, len(got), len(wrong), wrong[:1], name, len(inter)), None))
 
 
 def run_streams(ctx, spec, cands):
@@ -78,7 +89,7 @@ def run_streams(ctx, spec, cands):
         r = rng.random()
         k = rng.randint(2, 6) if r < 0.9 else rng.randint(27, 34)
         n_each = tuple(spec['len']) if k <= 6 else (3, 12)
-        st = streams.build(rng, cands, k=k, n_each=n_each, tagged=True, opts={'lookalike_tags': True})
+        st = streams.build(rng, cands, k=k, n_each=n_each, tagged=True, opts={'lookalike_tags': True, 'titles': rng.choice([0.02, 0.15])})
         s, probs = objcheck.run_stream(ctx, st, want=WANT)
         check_listing(ctx, st, s, probs)
         if i % 4 == 0 and k <= 6:
